@@ -5,17 +5,18 @@ import collections, itertools, logging
 
 from lib import vsa, vsa_sets as vs
 from lib import vsa_check as vc
+from lib import vsa_setops_corr as setops_corr
 
 PROP = "C23"
 L = "Claripy.VSA."
 P = "Claripy.Props.C23."
 THEOREMS = [P + n for n in ("C23_lift2", "C23_lift1", "C23_collapse", "C23_normalize", "C23_valueset_per_region",
                             "C23_dsis_add_sound", "C23_collapse_sound", "C23_normalize_sound", "C23_dsis_add", "C23_dsis_min_max_bound",
-                            "C23_dsis_binops", "C23_dsis_mul_mod", "C23_dsis_unops", "C23_dsis_orderings", "C23_dsis_eq", "C23_dsis_reflected", "C23_dsis_eval", "C23_dsis_union", "C23_dsis_intersection", "dsis_widen_unsound", "C23_valueset_union_meet", "C23_dsis_udiv", "C23_valueset_arith", "C23_valueset_meetVS")] + \
+                            "C23_dsis_binops", "C23_dsis_mul_mod", "C23_dsis_unops", "C23_dsis_orderings", "C23_dsis_eq", "C23_dsis_reflected", "C23_dsis_eval", "C23_dsis_eval_list", "C23_dsis_union", "C23_dsis_intersection", "dsis_widen_unsound", "C23_valueset_union_meet", "C23_dsis_udiv", "C23_valueset_arith", "C23_valueset_meetVS")] + \
            [L + "joinOK"] + \
            [L + n for n in ("lift2_sound", "lift1_sound", "collapse_sound", "normalize_sound", "finishSet_sound",
                             "mapRegions_sound", "applyEach2_sound", "dedupe_mem", "permute_mem", "foldl_join_sup", "dsis_card_zero", "dsis_min_le", "dsis_le_max",
-                            "lift2_spec", "lift1_spec", "collapse_prop", "collapse_WFw", "collapse_nrm", "collapse_aligned", "collapse_NE", "finishSet_P", "finishSet_WF", "finishSet_NE", "dsis_sub", "dsis_and", "dsis_or", "dsis_xor", "dsis_mul", "dsis_mod", "dsis_shl", "dsis_lshr", "dsis_ashr", "dsis_concat", "dsis_neg", "dsis_not", "dsis_zext", "dsis_sext", "dsis_extract", "dsis_ucmp", "dsis_scmp", "dsis_eq", "eq_sound", "dsis_rsub", "dsis_rudiv", "dsis_rmod", "dsis_eval", "dsis_unionSI", "dsis_unionDS", "unionFold_sound", "dsis_meetSI", "dsis_meetDS", "meetParts_sound", "vs_unionSI", "vs_unionVS", "vs_meetSI", "vsUnionStep_sound", "pseudoJoin_nb", "dsis_udiv", "vs_arith", "vs_opSI", "applyEach2o_mem", "vs_meetVS", "vsMeetStep_sound")]
+                            "lift2_spec", "lift1_spec", "collapse_prop", "collapse_WFw", "collapse_nrm", "collapse_aligned", "collapse_NE", "finishSet_P", "finishSet_WF", "finishSet_NE", "dsis_sub", "dsis_and", "dsis_or", "dsis_xor", "dsis_mul", "dsis_mod", "dsis_shl", "dsis_lshr", "dsis_ashr", "dsis_concat", "dsis_neg", "dsis_not", "dsis_zext", "dsis_sext", "dsis_extract", "dsis_ucmp", "dsis_scmp", "dsis_eq", "eq_sound", "dsis_rsub", "dsis_rudiv", "dsis_rmod", "dsis_eval", "dsis_unionSI", "dsis_unionDS", "unionFold_sound", "dsis_meetSI", "dsis_meetDS", "meetParts_sound", "vs_unionSI", "vs_unionVS", "vs_meetSI", "vsUnionStep_sound", "pseudoJoin_nb", "dsis_udiv", "vs_arith", "vs_opSI", "applyEach2o_mem", "vs_meetVS", "vsMeetStep_sound", "dsis_eval_list", "evalGather_mem")]
 TESTS = [P + "test_lift_example"]
 
 PY_METHOD = {"add": "__add__", "sub": "__sub__", "and": "__and__", "or": "__or__", "xor": "__xor__", "mod": "__mod__",
@@ -341,6 +342,9 @@ def run(ctx):
             disagree[op] = "%s model=%s real=%s" % (line, m, canon_str(reals[i]))
     for op, d in sorted(disagree.items()):
         ctx.tie_broken("corr:dsis.%s" % op, d)
+    # the set-level functions of Claripy/VSA/SetOps.lean (the terms the C23_dsis_* / C23_valueset_* theorems are stated about:
+    # comparisons, widen, udiv, reflected operations, eval, union, intersection, value-set operations) against the real methods
+    setops_corr.run(ctx, {k[5:]: v["modelled"] for k, v in sorted(per_op.items()) if k.startswith("dsis/") and v["modelled"]})
     fails = collections.defaultdict(list)
     idx_set = set(idx)
     for i, (cont, op, A, B, ex) in enumerate(cases):
